@@ -127,6 +127,8 @@ def resolve(ip, roots, path):
         for p in parts[1:-1]:
             if isinstance(cur, Obj):
                 cur = cur.attrs.get(p)
+            elif isinstance(cur, SymObj) and (cur.cls.name, p) in ip.state.fields:
+                cur = ip.state.read_field(cur, p)
             else:
                 return None
         return (cur, parts[-1]) if len(parts) > 1 else None
@@ -270,7 +272,18 @@ class FrameDiff:
             if k in st.fields and k in snap.fields and st.fields[k][0].eq(snap.fields[k][0]):
                 continue
             if k in st.fields and k in snap.fields:
-                out.append(('field map %s.%s' % k, st.fields[k][0] == snap.fields[k][0]))
+                # pointwise frame: entries of objects named by the frame, and of objects allocated since, may change
+                at = [r for (tag, r) in allowed if isinstance(tag, tuple) and len(tag) == 3 and tag[0] == 'fieldat' and (tag[1], tag[2]) == k]
+                a0 = snap.ghost.get('alloc')
+                if at or a0 is not None:
+                    r = z3.Int('r!frame')
+                    alts = [r == x for x in at]
+                    if a0 is not None and isinstance(a0, z3.ExprRef):
+                        alts.append(r >= a0)
+                    alts.append(z3.Select(st.fields[k][0], r) == z3.Select(snap.fields[k][0], r))
+                    out.append(('field map %s.%s' % k, z3.ForAll([r], z3.Or(alts))))
+                else:
+                    out.append(('field map %s.%s' % k, st.fields[k][0] == snap.fields[k][0]))
             else:
                 out.append(('field map %s.%s' % k, False))
         return out
@@ -366,5 +379,24 @@ def havoc_path(ip, roots, path, kinds=None):
                 cur.dom, cur.val, cur.size = n.dom, n.val, n.size
             return
         holder.attrs[attr] = fresh_like(ip, cur, path.replace('.', '_'), kind)
+        return
+    if isinstance(holder, SymObj):
+        # a field of a symbolic object: only this object's entry of the field map changes
+        key = (holder.cls.name, attr)
+        if key not in ip.state.fields:
+            raise Unsupported('field %s.%s of a symbolic object is not declared in the sidecar' % key)
+        arr, fk = ip.state.fields[key]
+        if callable(kind):
+            v = kind(ip, ip.state.read_field(holder, attr), path.replace('.', '_'))
+            ip.state.write_field(holder, attr, v)
+            return
+        t = ip.ctx.fresh(path.replace('.', '_'), fk.sort())
+        ip.state.fields[key] = (z3.Store(arr, holder.ref, t), fk)
+        la = ip.state.field_len.get(key)
+        if la is not None:
+            ip.state.field_len[key] = z3.Store(la, holder.ref, ip.ctx.fresh(path.replace('.', '_') + '_len', IntSort))
+        inv = ip.state.field_inv.get(key)
+        if inv is not None:
+            ip.ctx.assume(inv(t))
         return
     raise Unsupported('havoc of %s' % path)
